@@ -259,6 +259,25 @@ func TestDriveC18(t *testing.T) {
 					"otherExecuted": eb == nil, "err": e != nil, "panic": pan})
 			}
 		}
+		// ".." behind a symbolic link to a directory: the kernel resolves the link first, a purely lexical clean-up of the
+		// path does not - what is examined must be the file the kernel runs (base/current -> releases/v2, so that
+		// base/current/../tool.sh is base/releases/tool.sh, not base/tool.sh)
+		base := filepath.Join(dir, "dotdot")
+		must(os.MkdirAll(filepath.Join(base, "releases", "v2"), 0755))
+		os.Remove(filepath.Join(base, "current"))
+		must(os.Symlink(filepath.Join("releases", "v2"), filepath.Join(base, "current")))
+		markD, markE := filepath.Join(dir, "marker-dd-lexical"), filepath.Join(dir, "marker-dd-real")
+		for _, realAttr := range [][3]int{{1000, 1000, 0o777}, {0, 0, 0o755}, {0, 1000, 0o775}} {
+			putRel(filepath.Join(base, "tool.sh"), markD, 0, 0, 0o755)                                                  // what a lexical clean-up finds
+			putRel(filepath.Join(base, "releases", "tool.sh"), markE, realAttr[0], realAttr[1], os.FileMode(realAttr[2])) // what runs
+			os.Remove(markD)
+			os.Remove(markE)
+			_, e, pan := safeExec(base+"/current/../tool.sh", nil, 2*time.Second) // (not filepath.Join: it would clean the path lexically)
+			_, ed := os.Stat(markD)
+			_, ee := os.Stat(markE)
+			rec.Emit(Ev{"ev": "ExecRel", "ownerRoot": realAttr[0] == 0, "groupRoot": realAttr[1] == 0, "mode": realAttr[2], "executed": ee == nil,
+				"otherExecuted": ed == nil, "err": e != nil, "panic": pan})
+		}
 		// a file that is busy (open for writing: the kernel refuses to start it) and becomes unsafe a moment later is never
 		// run: whatever is tried again must be examined again
 		busy := filepath.Join(cwdDir, "verif-busy.sh")
